@@ -41,7 +41,9 @@ PROVED = ('for every swarm size, URI list (with repetitions), argument dictionar
           'is bounded; sequential calls members one at a time in dictionary order up to the first failure; a failed '
           'open closes every member after all open attempts finished and raises; a second open is refused without '
           'touching a member; over any history of actions on one swarm with re-used / aliased argument dictionaries the '
-          'caller\'s objects are unchanged and every member gets a fresh list = own connection + own entry.')
+          'caller\'s objects are unchanged and every member gets a fresh list = own connection + own entry; over any '
+          'history of runs in one process the error chained by run k is one of run k\'s errors (fresh reporter per run); '
+          'a shared error list is refuted.')
 NOT_PROVED = ('what open_link/close_link do inside SyncCrazyflie (C02); byte-code level preemption inside one statement; '
               'the helper actions built on parallel_safe (get_estimated_positions, reset_estimators).')
 
@@ -777,6 +779,153 @@ def check_history(case, impl=None):
     return None
 
 
+
+# ------------------------------------------------------------------------------------------ several runs in one process
+KIND = {'parallel_safe': 'KSafe', 'open_links': 'KSafe', 'parallel': 'KPar', 'sequential': 'KSeq'}
+
+
+def gen_process(rng):
+    """Several runs (same and different Swarm objects) in one process; in each run other members fail and every
+    failure is a NEW exception object."""
+    swarms = []
+    for _ in range(rng.randrange(1, 4)):
+        swarms.append(rng.sample(range(1, 12), rng.randrange(1, 5)))
+    runs = []
+    p_fail = rng.choice([0.3, 0.5, 0.8])
+    for _ in range(rng.randrange(3, 8)):
+        si = rng.randrange(len(swarms))
+        runs.append({'swarm': si, 'call': rng.choice(['parallel_safe'] * 4 + ['open_links'] * 2 + ['parallel', 'sequential']),
+                     'failing': [u for u in swarms[si] if rng.random() < p_fail]})
+    return {'op': 'process', 'swarms': swarms, 'runs': runs}
+
+
+def _err_id(r, k):
+    return (r + 1) * 100 + k
+
+
+def run_process(case):
+    import cflib.crazyflie.swarm as sw
+    cur = {}
+    keep = []                      # keeps every exception object alive: identities stay unique
+    ident = {}
+
+    class M:
+        def __init__(self, uri, inst):
+            self.uri, self.inst = uri, inst
+
+        def open_link(self):
+            action(self)
+
+        def close_link(self):
+            pass
+
+    class F:
+        def __init__(self):
+            self.k = 0
+
+        def construct(self, uri):
+            self.k += 1
+            return M(uri, self.k - 1)
+
+    lock = threading.Lock()
+
+    def action(scf, *a):
+        if scf.uri in cur['failing']:
+            e = _Err(cur['pos'][id(scf)])
+            with lock:
+                keep.append(e)
+                ident[id(e)] = _err_id(cur['run'], cur['pos'][id(scf)])
+                cur['raised'].append(ident[id(e)])
+            raise e
+
+    swarms = [sw.Swarm(u, factory=F()) for u in case['swarms']]
+    out = []
+    for r, run in enumerate(case['runs']):
+        s = swarms[run['swarm']]
+        members = list(s._cfs.values())
+        cur.update({'run': r, 'failing': set(run['failing']), 'pos': {id(m): k for k, m in enumerate(members)}, 'raised': []})
+        live0 = set(threading.enumerate())
+        try:
+            if run['call'] == 'open_links':
+                s.open_links()
+            else:
+                getattr(s, run['call'])(action)
+            o = ['Returned']
+        except Exception as e:  # noqa
+            obj = e if run['call'] == 'sequential' else e.__cause__
+            keep.append(e)
+            o = ['Raised', ident.get(id(obj), 'not-an-action-error:' + repr(obj)[:60])]
+        for t in set(threading.enumerate()) - live0:
+            t.join(3.0)
+        if run['call'] == 'open_links':
+            s.close_links()
+        out.append({'outcome': o, 'raised': sorted(cur['raised'])})
+    return out
+
+
+def _process_errs(case):
+    """Per run: the ids of the errors its actions raise (member order)."""
+    res = []
+    for r, run in enumerate(case['runs']):
+        mem = members_of(case['swarms'][run['swarm']])
+        ids = [_err_id(r, k) for k, u in enumerate(mem) if u in run['failing']]
+        res.append(ids[:1] if run['call'] == 'sequential' else ids)      # sequential stops at the first failure
+    return res
+
+
+def process_term(case):
+    errs = _process_errs(case)
+    return 'process_fresh [' + '; '.join('(%s, [%s])' % (KIND[run['call']], '; '.join('%d%%nat' % e for e in es))
+                                        for run, es in zip(case['runs'], errs)) + ']'
+
+
+def compare_process(case, impl, mv):
+    m = [None if x is None else _norm(x) for x in mv]
+    errs = _process_errs(case)
+    for k, (mo, r) in enumerate(zip(m, impl)):
+        io = r['outcome']
+        ok = (mo is None and io == ['Returned']) or \
+             (mo is not None and io[0] == 'Raised' and (io[1] == mo if case['runs'][k]['call'] == 'sequential' else io[1] in errs[k]))
+        if not ok or r['raised'] != errs[k]:
+            return ('process: run %d (%s) differs (model: error handed to the caller / errors of the run)' % (k, case['runs'][k]['call']),
+                    [mo, errs[k]], [io, r['raised']])
+    return None
+
+
+def check_process(case, impl=None):
+    """Property text per run, by identity of the exception objects: raises iff one of THIS run's actions raised, and
+    the chained error is one of the errors raised in THIS run."""
+    impl = impl or run_process(case)
+    for k, run in enumerate(case['runs']):
+        r = impl[k]
+        o = r['outcome']
+        own = r['raised']
+        mem = members_of(case['swarms'][run['swarm']])
+        fail_pos = [_err_id(k, i) for i, u in enumerate(mem) if u in run['failing']]
+
+        def fail(cls, exp, detail):
+            return {'class': cls, 'case': case, 'expected': {'run': k, 'call': run['call'], 'want': exp},
+                    'observed': {'run': k, 'outcome': o, 'errors_raised_in_this_run': own}, 'detail': detail}
+        if run['call'] == 'parallel':
+            if o != ['Returned']:
+                return fail('parallel_raises', ['Returned'], 'parallel never raises')
+            continue
+        if not fail_pos:
+            if o != ['Returned']:
+                return fail('raises_without_failure', ['Returned'], 'no action of this run raised')
+            continue
+        if o[0] != 'Raised':
+            return fail('failure_not_raised', 'raise chained from one of %s' % fail_pos, 'an action of this run raised')
+        if run['call'] == 'sequential':
+            if o[1] != fail_pos[0]:
+                return fail('sequential_wrong_order_or_result', fail_pos[0], 'the first failing action\'s own error propagates')
+        elif o[1] not in own:
+            return fail('chained_error_from_another_run', 'one of %s' % own,
+                        'the report must be chained from one of the errors raised in THIS run (identity of __cause__); '
+                        'id = (run+1)*100 + member')
+    return None
+
+
 # ------------------------------------------------------------------------------------------ tie
 def _corpus_cases():
     import glob
@@ -792,7 +941,7 @@ def _corpus_cases():
 
 
 def _gen_cases(ctx, rng):
-    cases = [c for c in _corpus_cases() if c.get('op') not in ('history',) and c.get('kind') != 'hold']
+    cases = [c for c in _corpus_cases() if c.get('op') not in ('history', 'process') and c.get('kind') != 'hold']
     # all failing subsets for small swarms, several schedules each
     for n in range(0, ctx.scale(4, 5)):
         for sub in itertools.chain.from_iterable(itertools.combinations(range(n), r) for r in range(n + 1)):
@@ -875,6 +1024,30 @@ def tie(ctx):
         d = compare_history(c, impl, mv)
         if len(used) > len(set(used)):
             nontriv += 1
+        if d:
+            n_bad += 1
+            if len(dis) < 12:
+                dis.append({'what': d[0], 'case': c, 'model': d[1], 'impl': d[2]})
+    # ---- several runs in one process (ungated): each run reports from its own reporter
+    pcases = [c for c in _corpus_cases() if c.get('op') == 'process']
+    for i in range(ctx.scale(200, 3000)):
+        pcases.append(gen_process(rng))
+    pmodel = coqrun.eval_terms(HEADER, [process_term(c) for c in pcases], tag='c19p', shard=100)
+    dist['process_cases'] = 0
+    dist['process_runs'] = 0
+    dist['process_failing_runs'] = 0
+    for c, mv in zip(pcases, pmodel):
+        if n_bad >= 6:
+            break
+        impl = run_process(c)
+        n_run += 1
+        dist['process_cases'] += 1
+        dist['process_runs'] += len(c['runs'])
+        nf = sum(1 for r in c['runs'] if r['failing'])
+        dist['process_failing_runs'] += nf
+        if nf >= 2:
+            nontriv += 1
+        d = compare_process(c, impl, mv)
         if d:
             n_bad += 1
             if len(dis) < 12:
@@ -1097,7 +1270,7 @@ def oracle(ctx, deep=False):
         if f and sum(1 for x in fails if x['class'] == f['class']) < 2:
             fails.append(f)
 
-    cases = [c for c in _corpus_cases() if c.get('op') != 'history' and c.get('kind') != 'hold']
+    cases = [c for c in _corpus_cases() if c.get('op') not in ('history', 'process') and c.get('kind') != 'hold']
     for size in range(0, ctx.scale(4, 5)):
         for sub in itertools.chain.from_iterable(itertools.combinations(range(size), r) for r in range(size + 1)):
             for op in ('parallel_safe', 'parallel_safe', 'parallel', 'sequential', 'open_links', 'open_twice', 'par_then_par'):
@@ -1112,6 +1285,11 @@ def oracle(ctx, deep=False):
             [gen_history(rng, n=(i % 4) + 1 if i < 20 else None) for i in range(ctx.scale(200, 3000) * (3 if deep else 1))]:
         n += 1
         add(check_history(c))
+    # several runs in one process: the chained error must be one raised in that run
+    for c in [c for c in _corpus_cases() if c.get('op') == 'process'] + \
+            [gen_process(rng) for i in range(ctx.scale(200, 3000) * (3 if deep else 1))]:
+        n += 1
+        add(check_process(c))
     # the join: members whose action is held back must hold back the caller
     for i in range(ctx.scale(10, 60)):
         size = rng.randrange(2, 6)
@@ -1141,4 +1319,6 @@ def replay(payload, ctx):
         return check_hold(c)
     if c.get('op') == 'history':
         return check_history(c)
+    if c.get('op') == 'process':
+        return check_process(c)
     return check_property(c, run_impl(c))
